@@ -51,6 +51,21 @@ def size_source_rule(F, rep):
     rep.ob("size-source.raw-code", len(conv) == 1, "io::slippi::de::parse_event", "raw-code", "the event code must be converted to Event exactly once, tolerating failure (`Event::try_from(code).ok()`)")
 
 
+def skip_size_rule(F, rep):
+    """the skip-frames jump is positioned with the file's own Game End size, not a version-derived one (a newer version may
+    have extended Game End)"""
+    from props import C10
+    b, blk = C10.skip_block(F)
+    if blk is None:
+        rep.ob("size-source.skip", False, C10.READ, "skip-block", "no skip-frames block found")
+        return
+    sizes = [callee(x) or "" for x in tir.walk(blk["then"]) if x.get("k") in ("Call", "MethodCall")]
+    bad = [c for c in sizes if c.endswith("::size") or "size_of" in c]
+    idx = [x for x in tir.walk(blk["then"]) if x.get("k") == "Index" and (tir.place(x["base"]) or "").endswith("payload_sizes")]
+    rep.ob("size-source.skip", not bad and len(idx) >= 1, C10.READ, "skip-offset",
+           "the skip-frames jump must be computed from the file's payload-size table, not from a size() function (%s): a newer version with a longer Game End would make the jump land inside the payload" % bad)
+
+
 def unknown_path_rule(F, rep):
     fn = "io::slippi::de::parse_event"
     b = F.body(fn)
@@ -209,6 +224,7 @@ def run(F, rep, tier):
     G = reach.Graph(F)
     R = G.reachable(ENTRIES)
     size_source_rule(F, rep)
+    skip_size_rule(F, rep)
     unknown_path_rule(F, rep)
     prefix_readers_rule(F, G, rep, R)
     monotone_rule(F, G, rep, R)
